@@ -121,6 +121,47 @@ example : lookupV1 false 0 1000 [(1, 5, 100), (0, 0, 200), (1, 7, 300)] 1 [5, 6,
 example : lookupV1 false 0 1000 [(1, 5, 100), (0, 0, 200)] 0 [0] = [notFound] := by decide
 example : labelNames (some 0) [0, 1, 1, 1, 3, 3] = [1, 3] := by decide
 
+/-! ### byte level: how the lookup gets past key count and label name of a table entry -/
+
+/-- `skipNAndName` as it is: the length is measured on the first entry visited (whatever the length
+    of the label name — one, two or three bytes of length prefix) and reused for every further entry
+    of the same label name; both times the decoder stands exactly on the label value. -/
+theorem C11_skip_measured (name v1 v2 : List Nat) (o1 o2 : Nat) (rest1 rest2 : List Nat)
+    (hn : name.length < 2 ^ 64) :
+    (skipNAndName (entryBytes name v1 o1 ++ rest1) 0).1 =
+      Thanos.Uvarint.uvarint v1.length ++ v1 ++ Thanos.Uvarint.uvarint o1 ++ rest1 ∧
+    (skipNAndName (entryBytes name v2 o2 ++ rest2) (skipNAndName (entryBytes name v1 o1 ++ rest1) 0).2).1 =
+      Thanos.Uvarint.uvarint v2.length ++ v2 ++ Thanos.Uvarint.uvarint o2 ++ rest2 := by
+  rw [skip_measure name v1 o1 rest1 hn]
+  exact ⟨rfl, by rw [skip_again]⟩
+
+/-- a skip length computed upfront as `1 + 1 + len(name)` is the measured one exactly for label
+    names shorter than 128 bytes -/
+theorem C11_skip_upfront_iff (name : List Nat) : nameSkipLen name = 1 + 1 + name.length ↔ name.length < 128 := by
+  unfold nameSkipLen
+  rw [← uvarint_length_one_iff]
+  omega
+
+/-- … so it is wrong: with a label name of 128 bytes the decoder stands one byte before the label
+    value (on the second byte of the name's length prefix … of the name's last byte) -/
+theorem C11_skip_upfront_false :
+    ∃ name : List Nat, nameSkipLen name ≠ 1 + 1 + name.length :=
+  ⟨List.replicate 128 97, by
+    intro h
+    have := (C11_skip_upfront_iff (List.replicate 128 97)).mp h
+    simp at this⟩
+
+example : (skipNAndName (entryBytes [97, 98] [120] 300 ++ [7]) 0) = ([1, 120, 172, 2, 7], 4) := by decide
+
+/-- regenerated fact: the skip length starts as 0 in `postingsOffset` and `skipNAndName` measures it
+    from the decoder (`d.Len()` before and after decoding), it is not computed from the name -/
+theorem C11_skip_fact :
+    Thanos.Facts.skipNAndNameStmts =
+      ["if:*buf == 0 {", "*buf = d.Len()", "d.Uvarint()", "d.UvarintBytes()", "*buf -= d.Len()",
+       "return", "}", "d.Skip(*buf)"] ∧
+    Thanos.Facts.postingsOffsetBufInit = ["buf := 0", "skipNAndName(&d, &buf)", "skipNAndName(&d, &buf)"] := by
+  decide
+
 /-! regenerated facts: the statements of LookupSymbol, LabelNames and the v1 branch are the ones
     transliterated in Model/IndexHeader.lean -/
 
